@@ -15,6 +15,7 @@ Ids(out) == {out[i][1] : i \in DOMAIN out}
 \* ---- C17 on the observed deliveries of one operation
 Judge(node, log2, e, obs) ==
   LET all == node.done \o obs IN
+  /\ Chk(~e.panic, "c17_filter_call_panicked")
   /\ Chk(\A i \in DOMAIN obs : log2[obs[i][1]].h = obs[i][2], "c17_delivered_to_other_height")
   /\ Chk(\A i \in DOMAIN obs : log2[obs[i][1]].inst = "me" /\ ~log2[obs[i][1]].self, "c17_ineligible_delivered")
   /\ Chk(\A i, j \in DOMAIN all : all[i][1] = all[j][1] => i = j, "c17_delivered_twice")
